@@ -254,6 +254,73 @@ async def upload_then_halfclose(out, ports, late_port, T, cfgname, io_name):
         c.close()
 
 
+async def stalled_log_scenario(out, args, wd, oport):
+    """the activity stamps must not depend on housekeeping that can block: with an access-log sink that stalled (a FIFO whose
+    reader never drains it) and the collector busy with hundreds of ended connections, a tunnel that carries a byte every second
+    stays open, and a silent one is still closed after the period"""
+    import fcntl
+    import os
+    T = 3
+    fifo = os.path.join(wd, "stalled-access.log")
+    os.mkfifo(fifo)
+    rfd = os.open(fifo, os.O_RDONLY | os.O_NONBLOCK)
+    try:
+        fcntl.fcntl(rfd, 1031, 4096)  # F_SETPIPE_SZ
+    except OSError:
+        pass
+    ports = {k: free_port() for k in ("rev", "api")}
+    L = Proxy(args.bin, base_cfg([{"name": "rev", "type": "reverse", "bind": "127.0.0.1:%d" % ports["rev"], "target": "127.0.0.1:%d" % oport}], [{"name": "direct"}], [{"target": "direct"}],
+                                 metrics_port=ports["api"], timeouts={"idle": T, "udp": T}, access_log={"path": fifo, "format": "json"}), "Lstall", wd)
+    try:
+        await L.start()
+        for i in range(600 if args.thorough else 450):
+            try:
+                c = await open_conn("127.0.0.1", ports["rev"])
+                c.close()
+            except Exception:
+                break
+        await asyncio.sleep(2.5)
+        out.case()
+        c = await open_conn("127.0.0.1", ports["rev"])
+        t = {"c": c, "src": c.local[1], "kind": "rev"}
+        t_act = await ping(t, b"s")
+        if t_act is None:
+            out.inconclusive += 1
+            return
+        t0 = now()
+        alive = True
+        while now() - t0 < 3 * T:
+            await asyncio.sleep(1.0)
+            r = await ping(t, b"t")
+            if r is None:
+                alive = False
+                out.violation("tunnel closed for idleness although data was relayed less than the period ago [access-log sink stalled]",
+                              {"period_s": T, "trickle_every_s": 1.0, "closed_after_s": round(now() - t0, 2), "last_activity_s_ago": round(now() - t_act, 2)})
+                break
+            t_act = r
+        out.nontrivial(("rev", "trickle", "log-sink-stalled", "splice"))
+        if alive:
+            # now silent: closed within the usual window
+            try:
+                b = await asyncio.wait_for(c.r.read(1), T + 1 + SLACK)
+                closed = now() - t_act
+                if b != b"":
+                    out.inconclusive += 1
+                elif closed < T - 0.3:
+                    out.violation("idle connection closed before the configured period [access-log sink stalled]", {"period_s": T, "closed_after_s": round(closed, 2)})
+            except asyncio.TimeoutError:
+                out.violation("idle connection not closed within the period (+1 s tick + slack) [access-log sink stalled]", {"period_s": T, "waited_s": round(now() - t_act, 2)})
+            except (ConnectionError, OSError):
+                pass
+            out.sample({"scenario": "access-log sink stalled", "trickle_kept_open_s": 3 * T, "then_closed": True})
+        c.close()
+        if not L.alive():
+            out.violation("proxy process died", {"proxy": "Lstall", "rc": L.exit_status(), "stderr": L.stderr_tail(600)})
+    finally:
+        L.kill()
+        os.close(rfd)
+
+
 async def main(args):
     out = Out("C13", "c13", "configs {timeouts absent, idle 0/udp 0, idle 2/udp 4, idle 4/udp 2} x listener kinds {http, socks, reverse-tcp, reverse-udp, socks-udp, CONNECT-over-QUIC} x traffic patterns {silent, trickle just under the period, burst then silence} x io modes; /api/live wiring check and wall-clock close window. distinct = distinct (listener kind, pattern, config, io mode)")
     rng = random.Random(args.seed)
@@ -310,6 +377,7 @@ async def main(args):
             if cname == "idle4-udp2" and (cname, io_name) not in seen_cfg:
                 seen_cfg.add((cname, io_name))
                 extra.append(upload_then_halfclose(out, ports, late.port, 4, cname, io_name))
+        extra.append(stalled_log_scenario(out, args, wd, origin.port))
         await asyncio.gather(*([run(j) for j in jobs] + extra))
         await late.stop()
         for p in procs:
